@@ -191,6 +191,23 @@ def check_diagramize(rep):
         rep.case(('diagramize', k))
         if not any(got == w for w in accepted):
             rep.fail('C20:diagramize.wiring', 'diagramize case %d gave %s' % (k, got), 'diagramize case %d' % k)
+    # states, scalars and effects inside a body: with an explicit offset, and without one (leftmost)
+    s, c, e = Box('s', Ty(), x), Box('c', Ty(), Ty()), Box('e', y, Ty())
+    bodies = [
+        ('state without offset', Ty(), x, lambda: s(), [s]),
+        ('state with offset', x, x @ x, lambda a: (a, s(offset=1)), [Id(x) @ s]),
+        ('state at offset 0 by default', x, x @ x, lambda a: (s(), a), [s @ Id(x)]),
+        ('scalar without offset', x, x, lambda a: (c(), a)[1], [c @ Id(x)]),
+        ('effect then state', y, x, lambda b: (e(b), s())[1], [e >> s]),
+        ('state feeding a box', Ty(), y, lambda: f(s()), [s >> f]),
+    ]
+    for name, dom, cod, body, accepted in bodies:
+        rep.case(('diagramize', name))
+        got = common.outcome(lambda: diagramize(dom, cod, [f, g, h, s, c, e])(body))
+        if got[0] != 'ok':
+            rep.fail('C20:diagramize.arity0', 'diagramize raised %r (%s)' % (got[1], name), name)
+        elif not any(got[1] == w for w in accepted):
+            rep.fail('C20:diagramize.arity0', '%s gave %s, expected %s' % (name, got[1], accepted[0]), name)
 
 
 def run(tier, seed=0, shard=(0, 1)):
